@@ -30,7 +30,7 @@ META: Dict[str, Any] = {
     "level": "exploration",
     "pools": [{"backend": "c"}, {"backend": "py"}],
     "tiers": {
-        "quick": {"runs": 9000, "chunk": 60, "wall": 75, "chunk_wall": 400},
+        "quick": {"runs": 7000, "chunk": 60, "wall": 75, "chunk_wall": 400},
         "thorough": {"runs": 400000, "chunk": 150, "wall": 1200, "chunk_wall": 900},
     },
     "selftest_runs": 4,
